@@ -13,7 +13,11 @@ From BB Require Import BN Brute SpaceFacts TrapFacts PercolateFacts AttractorFac
   Strict PetriNet Control Meta FilterFacts PetriNetFacts TrappistFacts DiagramStruct DiagramSem1 DiagramCache
   DiagramDepth DiagramComplete Termination ControlFacts MetaFacts Candidates StrictFacts MinExpandFacts CandidatesFacts SymbolicTest SymbolicTestFacts Signed ReductionFacts ControlFacts2 Main Blocks BlocksFacts ObsFacts OwnerFacts CandidatesTerm
   PartialOwner BlockMath BlockComplete ASeeds ASeedsFacts LogChecks SkipRule SkipRuleFacts Names NamesFacts Perm PermFacts SCC SCCFacts SCCStruct ControlFacts3 SCCTerm FilterSym Main2 StrategyFacts ControlFacts4 SkipRuleFacts2 SCCComplete SCCAttr BlockComplete2 ControlFacts5 Iso SkipSem ControlFacts6.
-From BB Require Import PyLib PyLibSd PyLibPerc PyLibCore PyLibControl PySrcControl PySrcControlFacts PySrcFindDriversFacts PySrcControlCorollaries.
+From BB Require Import PyLib PyLibSd PyLibPerc PyLibCore PyLibControl PySrcControl PySrcControlFacts PySrcFindDriversFacts PySrcControlCorollaries PyLibSd2 PySrcSdBase PySrcSdTarget PySrcSdTargetFacts PyLibSucc PySrcSucc PySrcSuccFacts PySrcSuccCtl PySrcSuccCtlFacts.
+
+(* succession_control as written in the source (its glue pinned to a reference text, calling the GENERATED successions_to_target and drivers_of_succession) is the model's succession_control_ff filtered by successful_only: the overrides listed per step are those of the model's drivers_of_succession, to which the completeness / minimality theorems below apply *)
+Theorem C07_source_succession_control : forall (fuel : nat) (N : net) (cfg : config) (d : sd) (target : list (option bool)) (strat : bool) (maxd : option nat) (forb : option (list nat)) (so ff : bool), succ_inv N d -> length target = nvars N -> 0 < count_fixed target -> let '(d1, r) := expand_to_target fuel N cfg d target None in py_succession_control fuel N cfg d target strat maxd forb so ff = match r with | RRaised _ | RFuel => SRaise d1 r | _ => SRet d1 (filter (fun iv : list space * list (list space) * bool => negb so || snd iv) (succession_control_ff N d1 target strat maxd (forb_list forb) ff)) end.
+Proof. exact py_succession_control_spec. Qed.
 
 (* C07 for the SOURCE TEXT of control.find_drivers (generated function): every reported override forces, avoids forbidden variables, respects the bound; the list is complete and minimal *)
 Theorem C07_source_text_find_drivers_sound : forall (N : net) (ts : list (option bool)) (strat : bool) (assume : list (option bool)) (maxd : option nat) (forb : option (list nat)) (l : list space) (drv : space), length ts = nvars N -> length assume = nvars N -> py_find_drivers N ts strat (Some assume) maxd forb = Some l -> In drv l -> length drv = nvars N /\ forces_ldoi N drv assume ts = true /\ (forall v : nat, In v (dom drv) -> ~ In v (opt_vars forb)) /\ length (dom drv) <= match maxd with | Some k => k | None => length (vars_fixed (free_of ts assume)) end /\ (strat = false -> forall (v : nat) (b : bool), nth v drv None = Some b -> nth v (free_of ts assume) None = Some b).
@@ -72,6 +76,7 @@ Proof. exact ff_filter_covers. Qed.
 Theorem C07_skip_feedforward_antichain : forall (succs : list (list (list (option bool)))) (a b : list space), (forall x : list (list (option bool)), In x succs -> forall (m : list (option bool)) (y : list (list (option bool))), In m x -> In y succs -> forall m' : list (option bool), In m' y -> length m = length m') -> In a (ff_filter succs) -> In b (ff_filter succs) -> subspace (signature a) (signature b) = true -> signature a = signature b.
 Proof. exact ff_filter_antichain. Qed.
 
+Print Assumptions C07_source_succession_control.
 Print Assumptions C07_source_text_find_drivers_sound.
 Print Assumptions C07_source_text_find_drivers_complete.
 Print Assumptions C07_source_text_find_drivers_minimal.
